@@ -316,11 +316,12 @@ fn one(idx: u64, c: &Case, floor: usize, lowest: usize, attempts: &mut Vec<u64>,
                 x86::End::Unknown { .. } => {}
                 _ => return (Verdict::Violated, "entry-does-not-decode-to-the-new-mapping".into(), d),
             }
+            // restoration and release at scope exit belong to C02 / C12: recorded here, not judged
             if r.0.is_err() || !t.intact() {
-                return (Verdict::Violated, "not-restored-after-drop".into(), d);
+                d = d.b("note_not_restored_after_drop", true);
             }
             if !new_lib_mappings(&led0).is_empty() {
-                return (Verdict::Violated, "mapping-left-after-drop".into(), d);
+                d = d.b("note_mapping_left_after_drop", true);
             }
             (Verdict::Held, String::new(), d)
         }
